@@ -263,10 +263,11 @@ func (c *Calcium) doDeployWorkloadsOnNode(ctx context.Context,
 			var e error
 			defer func() {
 				if e != nil {
-					err = e
-					logger.Error(ctx, err)
-					createMsg.Error = err
+					logger.Error(ctx, e)
+					createMsg.Error = e
+					// err and indices are shared by the goroutines of all the instances on this node
 					appendLock.Lock()
+					err = e
 					indices = append(indices, idx)
 					appendLock.Unlock()
 				}
